@@ -445,6 +445,18 @@ func check(sp storeSpec, built []builtMetric, o outputs) []viol {
 		m := bm.m
 		isText := bm.spec.Kind == "text"
 		isHist := bm.spec.Kind == "histogram" && bm.spec.Type == "buckets"
+		// The property quantifies over label values free of the target format's
+		// separators: with "." (graphite, statsd) or "-" (collectd) inside a value
+		// the replacement by "_" can merge two label sets' paths ("a.b" / "a_b").
+		// Such metrics are still compared with the model, record by record; the
+		// per-label-set oracle is evaluated only inside the property's domain.
+		hasDot, hasDash := false, false
+		for _, l := range bm.ls {
+			for _, v := range l.vals {
+				hasDot = hasDot || strings.Contains(v, ".")
+				hasDash = hasDash || strings.Contains(v, "-")
+			}
+		}
 		for _, l := range bm.ls {
 			where := fmt.Sprintf("metric %q prog %q labels %q", m.Name, m.Program, l.vals)
 			val, ts := l.datum.ValueString(), timeString(l.datum)
@@ -456,6 +468,13 @@ func check(sp storeSpec, built []builtMetric, o outputs) []viol {
 				on   bool
 			}{{"graphite-http", o.GraphiteHTTP, true}, {"graphite-push", o.GraphitePush, !isText}} {
 				if !g.on {
+					continue
+				}
+				if hasDot {
+					total[g.name]++
+					if isHist {
+						total[g.name] += len(datum.GetBuckets(l.datum).Buckets) + 1
+					}
 					continue
 				}
 				n, rec := count(g.recs, func(r string) bool { return strings.HasPrefix(r, gp+" ") })
@@ -516,13 +535,13 @@ func check(sp storeSpec, built []builtMetric, o outputs) []viol {
 			if bm.spec.Kind != "histogram" {
 				t := map[string]string{"counter": "c", "gauge": "g", "timer": "ms"}[bm.spec.Kind]
 				want := vlib.UnQ(sp.SPrefix) + m.Program + "." + pathOf(m.Name, m.Keys, l.vals, ".", ".") + ":" + val + "|" + t
-				if n, _ := count(o.Statsd, func(r string) bool { return r == want }); n != 1 {
+				if n, _ := count(o.Statsd, func(r string) bool { return r == want }); n != 1 && !hasDot {
 					add("statsd-record", fmt.Sprintf("%s: expected exactly one record %q, found %d", where, want, n))
 				}
 				typ := map[string]string{"counter": "counter", "gauge": "gauge", "timer": "gauge"}[bm.spec.Kind]
 				wantc := fmt.Sprintf("PUTVAL \"%s/%smtail-%s/%s-%s\" interval=%d %s:%s\n", host, vlib.UnQ(sp.CPrefix), m.Program, typ,
 					pathOf(m.Name, m.Keys, l.vals, "-", "-"), sp.Interval, ts, val)
-				if n, _ := count(o.Collectd, func(r string) bool { return r == wantc }); n != 1 {
+				if n, _ := count(o.Collectd, func(r string) bool { return r == wantc }); n != 1 && !hasDash {
 					add("collectd-record", fmt.Sprintf("%s: expected exactly one record %q, found %d", where, wantc, n))
 				}
 			}
